@@ -302,13 +302,13 @@ func (r *Run) Finish(floor int, reqs ...Require) int {
 		"seed":               r.Seed,
 		"level":              r.Level,
 		"coverage":           cov,
-		"assumptions":        r.assumptions,
+		"assumptions":        nonNil(r.assumptions),
 		"wall_s":             time.Since(r.start).Seconds(),
 		"violations":         nvio,
 		"violation_list":     r.violations,
 		"known_findings_hit": r.knownHit,
-		"inconclusive":       r.inconclusive,
-		"vacuity":            vac,
+		"inconclusive":       nonNil(r.inconclusive),
+		"vacuity":            nonNil(vac),
 		"go":                 runtime.Version(),
 	}
 	r.mu.Unlock()
@@ -415,4 +415,11 @@ func Parallel(n int, f func(i int)) {
 func Short(b []byte) string {
 	s := sha256.Sum256(b)
 	return hex.EncodeToString(s[:6])
+}
+
+func nonNil(s []string) []string {
+	if s == nil {
+		return []string{}
+	}
+	return s
 }
